@@ -3,13 +3,15 @@ from ..core import Query
 
 META = {
     "level": "model_checking",
-    "functions": ["ringbuf_put", "ringbuf_get", "ringbuf_empty (ring buffer pattern only - see outside_the_bounds for the message-queue and fibre patterns)"],
-    "units": ["librfn/ringbuf.c via clang-14 LLVM IR at -O1 and -O2 (the memory order and atomicity of every access are read off the IR instruction)"],
-    "bounds": {"quick": "the C05 executions (1 put + 1 get, length 2..3, every start index and byte value, free preemption) at -O1 with the vector-clock happens-before monitor on every shared access",
+    "functions": ["ringbuf_put", "ringbuf_get", "ringbuf_empty (IR step machines)", "messageq_claim", "messageq_send", "messageq_receive", "messageq_release (source level, hand-off chain of whole handlers)"],
+    "units": ["librfn/messageq.c compiled by goto-cc with harness/shim_hb/stdatomic.h (memory orders as written in the source)", "librfn/ringbuf.c via clang-14 LLVM IR at -O1 and -O2 (the memory order and atomicity of every access are read off the IR instruction)"],
+    "bounds": {"quick": "message queue: sender A (claim, write, send) -> receiver (receive, read, release) -> sender B (claim of the same slot, write, send) -> receiver (receive, read) on a depth-1 queue, "
+                        "three threads, symbolic payloads, no overlap between handlers (one interleaving; both payload edges). Ring buffer: the C05 executions (1 put + 1 get, length 2..3, every start index and byte value, free preemption) at -O1 with the vector-clock happens-before monitor on every shared access",
                "thorough": "additionally 1 + 2 and 2 + 1 operations and the -O2 IR"},
-    "outside": ["THE MESSAGE-QUEUE PATTERN AND THE FIBRE WAKE-UP / EVENT PATTERN (both run on messageq.c) ARE NOT DECIDED BY ANY REGISTERED QUERY: the monitor over the C04 step "
-                "machines gave no verdict within reach (1 sender + receiver, depth 1, whole handlers in every order: > 12 min and 7.5 GB without a verdict; 2 senders or 2 messages: "
-                "out of memory at 10-12 GB). A weakened memory order in messageq.c (seed C07b: relaxed fetch_or in messageq_send) is therefore NOT reported by this check",
+    "outside": ["the message-queue pattern (also the fibre wake-up / event path, which runs messageq.c on queues of pointers / events) is decided for ONE interleaving shape only: "
+                "whole handlers handed from thread to thread (c07-mq-handoff); overlapping handlers, several messages in flight and depth > 1 are not explored for happens-before - the "
+                "monitor over the C04 step machines gave no verdict within reach (1 sender + receiver: > 12 min, 7.5 GB; larger: out of memory at 10-12 GB). "
+                "In that query the orders are those WRITTEN IN THE SOURCE (shim macros), not those in the compiler's IR, and messageq.c's own plain accesses to receivep are not reported (single receiver)",
                 "executions that are not sequentially consistent: on the current tree every atomic is seq_cst, so race-freedom of all SC interleavings gives (C11 DRF-SC) that all "
                 "executions of the bounded scenarios are SC and race-free; after a weakening mutation the check is a bug-finder over SC interleavings with happens-before from the actual orders",
                 "long randomised real-thread runs under ThreadSanitizer (dynamic sampling - not part of this technique family, not done)",
@@ -25,10 +27,16 @@ def queries(tier, kf):
     M1 = {"VT_MONITOR": None, "NO_FAIL_WITNESS": None}
     from .. import gens
     qs = [gens.selftest_query("c07-ir2c-selftest"), ring_q("c07-ring-O1-1x1", 0, 1, 1, 3, extra=M1, timeout=7200, unwind=9)]
+    # message-queue pattern at source level: hand-off chain of whole handlers, orders as written in the source (harness/c07_mq.c)
+    qs.append(Query("c07-mq-handoff", "c07_mq.c", "h_mq_hb", unwind=6, cc_flags=["-I", "harness/shim_hb"], timeout=600, mem_gb=6,
+                    tolerate=[(r"arithmetic overflow on signed shl", "1 << slot in messageq (signed-shift class, see C10)")]))
     if tier == "thorough":
         qs += [ring_q("c07-ring-O1-1x2", 0, 1, 2, 3, extra=M1, timeout=14400, unwind=9), ring_q("c07-ring-O1-2x1", 0, 2, 1, 3, extra=M, timeout=14400, unwind=9),
                ring_q("c07-ring-O2-1x1", 0, 1, 1, 3, extra=M1, opt="-O2", timeout=7200, unwind=9)]
     cans = [("relaxed-publish", "\tatomic_store(&rb->writei, writei);\n\treturn true;", "\tatomic_store_explicit(&rb->writei, writei, memory_order_relaxed);\n\treturn true;")]
+    qs.append(Query("c07-canary-mq-relaxed-release", "c07_mq.c", "h_mq_hb", unwind=6, cc_flags=["-I", "harness/shim_hb"], timeout=600, mem_gb=6, role="canary",
+                    mutate=[("librfn/messageq.c", "\tatomic_fetch_add(&mq->num_free, 1);\n}", "\tatomic_fetch_add_explicit(&mq->num_free, 1, memory_order_relaxed);\n}")],
+                    tolerate=[(r"arithmetic overflow on signed shl", "1 << slot in messageq (signed-shift class, see C10)")]))
     for n, old, new in cans:
         qs.append(ring_q("c07-canary-" + n, 0, 1, 1, 3, extra=M1, role="canary", mutate=[("librfn/ringbuf.c", old, new)], timeout=7200, unwind=9))
     return qs
